@@ -27,6 +27,7 @@ from praatio import data_points
 from praatio.data_classes import klattgrid as kc
 from praatio.data_classes.data_point import PointObject1D, PointObject2D
 
+ESCALATE = False      # the quick tier already takes half a minute (file I/O per KlattGrid); a changed source does not enlarge it
 RULE = ("KlattGrids: the reference tests/files/bobby.KlattGrid and synthetic files (independent writer, Praat layout or "
         "praatio layout; 1-6 (sometimes 10-13) oral / frication formants, 0-5 points per tier, values drawn from short integers, 17-digit "
         "decimals, exponent forms, 0) x value functions {x/3-like scaling by 1/3, x*1.1, +0.1, sign change, *1e-300, *1e300, "
